@@ -18,7 +18,10 @@ ADDR_FIELDS = ["RekeyTo", "CloseRemainderTo", "AssetCloseTo", "Sender"]
 
 
 class G:
-    def __init__(self, rng, version=None, intc=None):
+    def __init__(self, rng, version=None, intc=None, kf_free=False):
+        # kf_free: avoid the shapes listed in known_findings.json and the comparisons with run-time values the
+        # properties exclude, so that the property oracle can be applied without masks
+        self.kf_free = kf_free
         self.r = rng
         self.version = version if version is not None else rng.choice([4, 5, 6, 6, 7, 8, 8])
         self.lab = 0
@@ -88,7 +91,7 @@ class G:
         if kind == "fee":
             a, _ = self.read("Fee")
             c = r.choice(FEE_CONSTS)
-            b = self.int_push(c) if r.random() < 0.9 else ["global MinTxnFee"]
+            b = self.int_push(c) if (r.random() < 0.9 or self.kf_free) else ["global MinTxnFee"]
             op = r.choice(CMPS)
             return (b + a if swap else a + b) + [op]
         if kind == "addr":
@@ -99,7 +102,7 @@ class G:
                 b = ["global ZeroAddress"]
             elif c < 0.75:
                 b = [f"addr {r.choice(ADDRS)}"]
-            elif c < 0.9:
+            elif c < 0.9 or self.kf_free:
                 b = ["global CreatorAddress"]
             else:
                 b = [f"txn {r.choice(['Receiver', 'Sender'])}"]
@@ -131,12 +134,18 @@ class G:
             n = r.choice([1, 2, 3, 4, 8, 15, 16, 17, 0])
             a = ["global GroupSize"]
             b = self.int_push(n)
-            return (b + a if swap else a + b) + [r.choice(CMPS)]
+            op = r.choice(CMPS)
+            if self.kf_free and op not in ("==", "!="):
+                swap = False  # D2: operand order of < <= > >= is ignored for GroupSize/GroupIndex
+            return (b + a if swap else a + b) + [op]
         if kind == "gindex":
             n = r.choice([0, 1, 2, 3, 7, 14, 15, 16])
             a = ["txn GroupIndex"]
             b = self.int_push(n)
-            return (b + a if swap else a + b) + [r.choice(CMPS)]
+            op = r.choice(CMPS)
+            if self.kf_free and op not in ("==", "!="):
+                swap = False
+            return (b + a if swap else a + b) + [op]
         # unknown / unrelated
         c = r.random()
         if c < 0.3:
@@ -198,14 +207,18 @@ class G:
             return self.loop_stmt(depth, in_sub)
         if c < 0.84 and self.subs:
             self.features.add("callsub")
-            return [f"callsub {r.choice(self.subs)}"]
+            # kf_free: never let a label follow a callsub directly (D3: return point that is a jump target)
+            return [f"callsub {r.choice(self.subs)}"] + (["int 1", "pop"] if self.kf_free else [])
         if c < 0.88 and depth > 0 and self.version >= 8:
             return self.switch_stmt(depth, in_sub, in_loop)
         if c < 0.93:
             # early exit guarded by a condition
             self.features.add("early-exit")
             l = self.label("skip")
-            ex = r.choice([["err"], ["int 0", "return"], ["int 1", "return"], self.cond(0) + ["return"]])
+            if self.kf_free and in_sub:
+                ex = r.choice([["err"], ["int 0", "return"]])  # D4: a subroutine that both returns and approves
+            else:
+                ex = r.choice([["err"], ["int 0", "return"], ["int 1", "return"], self.cond(0) + ["return"]])
             return self.cond() + [f"{r.choice(['bz', 'bnz'])} {l}"] + ex + [f"{l}:"]
         return self.cond() + ["assert"]
 
@@ -266,7 +279,7 @@ class G:
                 self.features.add("recursion-possible")
             b = self.stmts(r.randrange(1, 4), r.choice([0, 1, 1, 2]), in_sub=True)
             c = r.random()
-            if c < 0.12:
+            if c < 0.12 and not self.kf_free:
                 self.features.add("sub-approves-internally")
                 l = self.label("cont")
                 b += self.cond() + [f"bz {l}", "int 1", "return", f"{l}:"]
@@ -300,8 +313,8 @@ class G:
         return head + main + sub_lines
 
 
-def random_program(rng):
-    g = G(rng)
+def random_program(rng, kf_free=False):
+    g = G(rng, kf_free=kf_free)
     lines = g.program()
     return "\n".join(lines), sorted(g.features)
 
